@@ -92,7 +92,9 @@ impl Check for C09 {
             // stays open): a writer parks inside the transport and keeps the writer lock. Only the causes that
             // do not need the receive loop are combined with it (behind such a peer the receive loop itself can
             // be parked in an inline answer and then legitimately never sees an Alert or an EOF)
-            "stall_after": if matches!(cause_kind, "owner_close" | "hb_giveup") && g.chance(45) { json!(g.range(0, 2_000)) } else { Value::Null },
+            // (not with "alert": a receive loop parked in an inline reply behind a stalled peer has read the
+            // alert's bytes but not yet processed the frame — the session has not ended yet)
+            "stall_after": if cause_kind != "alert" && g.chance(if matches!(cause_kind, "owner_close" | "hb_giveup") { 45 } else { 25 }) { json!(g.range(0, 2_000)) } else { Value::Null },
         })
     }
     fn horizon(&self, _p: &Value) -> Duration {
@@ -387,10 +389,10 @@ impl Check for C09 {
                 out.viol("not-closed", format!("not-closed:{}", cz), format!("{} session not visibly closed {} ms after it was told ({})", plan["side"], B_US / 1000, cz));
             }
             let stalled = plan["stall_after"].as_u64().is_some();
-            // behind a peer that stopped reading, a parked write legitimately keeps the transport (and its
-            // lock) busy for ever: shutdown, that write and close() itself are not judged then — releasing
-            // every waiter and refusing new work still is
-            if !stalled && !c_out.shutdown_called() {
+            // behind a peer that stopped reading a write can be parked in the transport when the session
+            // dies: it must be failed so that the transport can be shut down (defect #19, fixed)
+            let _ = stalled;
+            if !c_out.shutdown_called() {
                 out.viol("transport-not-shut", format!("transport-not-shut:{}", cz), format!("neither shutdown nor drop of the transport writer {} ms after {}", B_US / 1000, cz));
             }
             {
@@ -416,7 +418,7 @@ impl Check for C09 {
                     }
                 }
             }
-            if !stalled && effective_cause == "owner_close" && close_ret.lock().unwrap().is_none() {
+            if effective_cause == "owner_close" && close_ret.lock().unwrap().is_none() {
                 out.viol("close-hang", "close-hang", format!("close() has not returned {} ms after it was called", B_US / 1000));
             }
             // ---- later attempts: must fail, promptly ----
@@ -447,7 +449,7 @@ impl Check for C09 {
             // ---- by t0 + 2B ----
             {
                 let g = ops.lock().unwrap();
-                if let Some(o) = g.iter().find(|o| !stalled && o.start < t0 + B_US && o.end.is_none()) {
+                if let Some(o) = g.iter().find(|o| o.start < t0 + B_US && o.end.is_none()) {
                     out.viol("op-hang", format!("op-hang:{}:{}", o.api, cz), format!("a {} write started at t={}us (session told at {}us) has not returned by t0+{}ms", o.api, o.start, t0, 2 * B_US / 1000));
                 }
             }
